@@ -139,6 +139,7 @@ BifApply(name, args) ==
         ELSE LET vs == ListArg(args) IN
              IF vs = <<>> THEN Null
              ELSE IF AllNums(vs) \/ AllStrs(vs) THEN Best(vs, 1, name = "min")
+             ELSE IF \E i \in 1..Len(vs) : vs[i].k \in {"list", "ctx"} THEN Null    \* e.g. min([3, 1], 0): a list among the items is not comparable
              ELSE Unspec                                              \* nulls / mixed kinds: not settled
   [] name = "sum" ->
         IF n = 0 THEN Null
@@ -170,7 +171,8 @@ BifApply(name, args) ==
   [] name = "stddev" ->
         IF n = 0 THEN Null
         ELSE LET vs == ListArg(args) IN
-             IF Len(vs) < 2 THEN (IF vs = <<>> \/ AllNums(vs) THEN Null ELSE Unspec) ELSE IF ~AllNums(vs) THEN Unspec
+             IF Len(vs) < 2 THEN (IF vs = <<>> \/ AllNums(vs) THEN Null ELSE Unspec)
+             ELSE IF \E i \in 1..Len(vs) : vs[i].k \notin {"num", "null"} THEN Null ELSE IF ~AllNums(vs) THEN Unspec
              ELSE IF \A i \in 1..Len(vs) : Eq3(vs[i], vs[1]) = Bool(TRUE) THEN Num(0, 0) ELSE Unspec   \* accuracy of roots: C02
   [] name = "all" ->
         IF n = 0 THEN Null
